@@ -275,8 +275,11 @@ def candidate_sweep(pid, cfg, already_violated):
         results = witness.sweep(pid, cfg, REPO)
     except Exception as e:
         return {"error": str(e)}, [f"note: candidate inputs could not be replayed: {e}"], 0
-    bad = [r for r in results if r["violated"]]
-    info = {"candidates_replayed": len(results), "violating": len(bad)}
+    # an input that is the witness of a listed known finding is expected to fail: it is not a new violation
+    known_inputs = {(k.get("witness") or {}).get("input") for k in load_known().get("findings", []) if k["property"] == pid}
+    bad = [r for r in results if r["violated"] and r["input"] not in known_inputs]
+    info = {"candidates_replayed": len(results), "violating": len(bad),
+            "violating_but_known_finding": len([r for r in results if r["violated"] and r["input"] in known_inputs])}
     if bad and not already_violated:
         os.makedirs(os.path.join(VERIF, "replay", "out"), exist_ok=True)
         for k, r in enumerate(bad[:3]):
